@@ -120,6 +120,15 @@ def templates(pyver, tier, rng=None):
     add("dup-class", "class A: pass\nclass A: pass\n")
     add("multi-returns", "def _():\n    return\n    return\n")
 
+    # ---- closures: cells x free variables x dead code
+    add("closure-free-plus-dead-cell", "def outer():\n    a = 1\n    def mid():\n        if 0:\n            x = 2\n            def inner():\n                return x\n        return a\n    return mid\n")
+    add("closure-free-before-cell", "def deco(arg):\n    def wrapper(fn):\n        def inner(*a):\n            return fn(arg, *a)\n        return inner\n    return wrapper\n")
+    add("closure-cell-before-free", "def deco(z_arg):\n    def wrapper(fn):\n        def inner(*a):\n            return fn(z_arg, *a)\n        return inner\n    return wrapper\n")
+    add("closure-many", "def o(a, b, c):\n    def m(d, e):\n        x = a\n        def i():\n            return (c, e, x, b, d)\n        y = b\n        if 0:\n            q = 1\n            def dead(): return q\n        return i, y\n    return m\n")
+    add("closure-class", "def o(a):\n    class K:\n        z = a\n        def m(self):\n            return (__class__, a, super().m())\n    return K\n")
+    add("closure-kwonly-cell", "def o(*, k, **kw):\n    def i(x, *, y=k):\n        return (k, kw, x, y)\n    return i\n")
+    add("closure-nonlocal-dead", "def o():\n    n = 0\n    t = 1\n    def i():\n        nonlocal n\n        n += t\n        return\n        def dead(): return n, t\n    return i\n")
+    add("closure-unused-free-order", "def o(b, a):\n    def m():\n        v = b\n        w = 2\n        def i(): return (w, a)\n        return i, v\n    return m\n")
     # ---- signatures
     add("sig-star-kwonly", "def f(*va, c0=1): return va, c0\ndef g(a, *va, c0, c1=2, **kw): return a\n")
     add("sig-kwonly-only", "def f(*, k): return k\nlambda *, k=1: k\n")
@@ -153,6 +162,16 @@ def templates(pyver, tier, rng=None):
         for k in (60, 124, 130):
             add("with-noline-%d" % k, "def f():\n    with a:\n" + "        y = 1\n" * k + "    return 1\n")
             add("try-finally-ret-%d" % k, "def f():\n    try:\n" + "        y = 1\n" * k + "        return y\n    finally:\n        z = 2\n")
+    return out
+
+
+def noline_sources(pyver):
+    """3.10: sources for the AST recipe that makes the real assembler emit no-line runs (statement without a location in a
+    block that joins two branches and is not an exit block)."""
+    out = []
+    for n in (3, 20, 60, 125, 126, 127, 128, 129, 140, 255, 260, 400):
+        out.append(("noline-%d" % n, "if a:\n    b = 1\nx = [" + ", ".join("y%d" % i for i in range(n)) + "]\nif c:\n    d = 1\ne = 2\n", 1))
+        out.append(("noline-fn-%d" % n, "def f(a, c):\n    if a:\n        b = 1\n    x = [" + ", ".join("a" for i in range(n)) + "]\n    if c:\n        d = 1\n    return x\n", None))
     return out
 
 
